@@ -92,30 +92,7 @@ fn v_items(v: &Value) -> usize {
     }
 }
 
-pub fn smallest_value(d: &Desc) -> Value {
-    match d {
-        Desc::Unit => Value::Unit,
-        Desc::Int { .. } | Desc::Float { .. } | Desc::Bool => Value::U(0),
-        Desc::Array(e, n) => Value::Arr((0..*n).map(|_| smallest_value(e)).collect()),
-        Desc::Struct { fields, .. } => Value::Struct(fields.iter().map(smallest_value).collect()),
-        Desc::Enum { variants, sized, .. } => {
-            let mut best = 0;
-            if !*sized {
-                let mut bm = usize::MAX;
-                for (i, v) in variants.iter().enumerate() {
-                    let m = c_struct(v).1;
-                    if m < bm {
-                        bm = m;
-                        best = i;
-                    }
-                }
-            }
-            Value::Var(best, variants[best].iter().map(smallest_value).collect())
-        }
-        Desc::Vec { .. } | Desc::Flex { .. } => Value::Seq(vec![]),
-        Desc::Str { .. } => Value::Str(String::new()),
-    }
-}
+pub use crate::model::smallest_value;
 
 /// Replace one header / constrained field of a valid image by a boundary value.
 pub fn mutate_header(d: &Desc, img: &mut Vec<u8>, rng: &mut Rng) -> Option<&'static str> {
